@@ -577,6 +577,10 @@ def explore(prop, tier, offset=0):
         tags[o['cfg']['scen']] += 1; tags['algo=' + o['cfg']['algo']] += 1
         for v in o['viol']:
             if v['prop'] in (prop, '*'): viols.append(dict(v, prop=prop, i=0, cfg=o['cfg'], ops=[]))
+    if prop == 'C07':
+        # two PROCESSES evicting the same key into a shared dir_archive (the twin scenario inside one process never overlaps two stores)
+        import run_sched
+        pv, pe = run_sched.same_key_probe('C07'); viols += pv; errors += pe; tags['same-key-probe'] += 1
     n = sum(tags[s] for s in ('recur', 'twin', 'unser', 'reuse', 'names', 'chdir', 'hashraises', 'jsonpurge', 'redecorate', 'rrlookup', 'stacked', 'bigvalue'))
     # the recursive traces against the model (flat history of completions)
     import run_wrapper as rw
@@ -607,6 +611,11 @@ def explore(prop, tier, offset=0):
 
 
 def replay(prop, obj):
+    if (obj.get('cfg') or {}).get('probe') == 'same-key':
+        import run_sched
+        pv, pe = run_sched.same_key_probe(prop)
+        if pe: raise NoVerdict(pe[0])
+        return dict(violations=[dict(prop=prop, sig=v['sig'], msg=v['msg'], i=0) for v in pv], divergence=None)
     if obj.get('recursive'):
         import suite_wrapper as sw, run_wrapper as rw
         if '_ops' in obj['cfg']:
